@@ -141,7 +141,8 @@ impl Scenario for Bh {
         if self.sync_panic_first {
             w.inner.lock().unwrap().sync_panic_calls = vec![0];
         }
-        let svc = layer.layer(GatedInner::new(w.inner.clone()));
+        // (the service is made by a clone of the layer, as a router that clones its layers per route does)
+        let svc = layer.clone().layer(GatedInner::new(w.inner.clone()));
         X { svc, first_poll_pre: None, w_release_and_timeout: false, completes_at: vec![] }
     }
     fn arrive(&self, w: &mut World, x: &mut X, c: usize, _v: u8) {
@@ -456,5 +457,73 @@ fn main() {
             svcx::validate_abstraction(&cfg, 6, &ex.fingerprints, ex.depth_completed, &mut rep);
         }
     }
+    no_timer_run(prop, &mut rep);
     trv_core::finish(rep);
+}
+
+/// "Wait without limit" needs no timer: a bulkhead without max_wait_duration depends on nothing
+/// but its semaphore. Two calls through a one-slot bulkhead are driven by hand with a no-op
+/// waker, outside any runtime (no tokio context, no time driver): the first is admitted and
+/// answered, the second is admitted once the first has finished; nothing may panic.
+fn no_timer_run(prop: &'static str, rep: &mut Report) {
+    use std::future::Future;
+    use std::task::{Context, Poll};
+    use trv_core::inner::InnerErr;
+    #[derive(Clone)]
+    struct Now;
+    impl Service<Req> for Now {
+        type Response = u32;
+        type Error = InnerErr;
+        type Future = std::future::Ready<Result<u32, InnerErr>>;
+        fn poll_ready(&mut self, _cx: &mut Context<'_>) -> Poll<Result<(), InnerErr>> {
+            Poll::Ready(Ok(()))
+        }
+        fn call(&mut self, req: Req) -> Self::Future {
+            std::future::ready(Ok(req.id))
+        }
+    }
+    let r = std::panic::catch_unwind(|| {
+        let layer = BulkheadLayer::builder().max_concurrent_calls(1).build();
+        let mut svc = layer.layer(Now);
+        let waker = trv_core::ilv::noop_waker();
+        let mut cx = Context::from_waker(&waker);
+        let mut answers = vec![];
+        for id in [1u32, 2] {
+            if !matches!(svc.poll_ready(&mut cx), Poll::Ready(Ok(()))) {
+                return Err("poll_ready not ready".to_string());
+            }
+            let mut fut = Box::pin(svc.call(Req::new(id, 0)));
+            let mut got = None;
+            for _ in 0..4 {
+                if let Poll::Ready(r) = fut.as_mut().poll(&mut cx) {
+                    got = Some(r.map_err(|_| ()));
+                    break;
+                }
+            }
+            answers.push(got);
+        }
+        if answers == vec![Some(Ok(1)), Some(Ok(2))] {
+            Ok(())
+        } else {
+            Err(format!("answers {answers:?}"))
+        }
+    });
+    rep.evaluations += 1;
+    rep.witness("call_driven_outside_any_runtime", 1);
+    let problem = match r {
+        Ok(Ok(())) => None,
+        Ok(Err(e)) => Some(e),
+        Err(p) => Some(format!("panicked: {}", p.downcast_ref::<String>().cloned().or_else(|| p.downcast_ref::<&str>().map(|s| s.to_string())).unwrap_or_default())),
+    };
+    if let Some(e) = problem {
+        rep.violations.push(trv_core::evidence::Violation {
+            property: prop.into(),
+            kind: "needs_a_timer_to_wait_without_limit".into(),
+            site: "bulkhead".into(),
+            config: "bulkhead max=1 max_wait=None, calls driven outside any runtime".into(),
+            history: json!(["call 1 to its end", "call 2 to its end"]),
+            detail: format!("a bulkhead without max_wait_duration, free slot, no tokio runtime: {e}"),
+            log: vec![],
+        });
+    }
 }
